@@ -464,6 +464,10 @@ class Engine:
     def compare_vals(self, op, a, b, st):
         # heap lists / bufs compare structurally
         a2, b2 = self.devalue(a, st), self.devalue(b, st)
+        if isinstance(a2, VSeq) and isinstance(b2, VTuple):
+            b2 = VSeq(self.builtin_mod.encode_elem(self, st, b2, Ty("seq", [a2.elem])), a2.elem)
+        elif isinstance(b2, VSeq) and isinstance(a2, VTuple):
+            a2 = VSeq(self.builtin_mod.encode_elem(self, st, a2, Ty("seq", [b2.elem])), b2.elem)
         return compare(op, a2, b2) if not isinstance(op, (ast.Is, ast.IsNot)) else compare(op, a, b)
 
     def devalue(self, v, st):
@@ -474,6 +478,8 @@ class Engine:
                 return VTuple([self.devalue(x, st) for x in o.f["items"]])
             if o.kind == "buf":
                 return VBytes(o.f["e"], KIND_BYTEARRAY)
+            if o.kind == "slist":
+                return VSeq(o.f["e"], o.f["elem"])
         if isinstance(v, VTuple):
             return VTuple([self.devalue(x, st) for x in v.items])
         if isinstance(v, VUnion):
